@@ -358,11 +358,18 @@ def _rs(fn, n):
     return SUM(z3.Lambda([i], to_real(fn(i))), to_z3(n))
 
 
+def _directed_undersampled():
+    """the -inf value of the score (an observed event in a cell no synthetic catalog sampled) is what the 'undersampled' path of
+    the pseudo-likelihood test keys on: concrete forecasts through the public test (conventions of rt/oracles_catfc.catfc_test)"""
+    from contracts.cateval import directed_catfc
+    return [x for x in directed_catfc('pseudolikelihood_test')() if len(x[1]['observed']) in (1, 2)][-6:]
+
+
 @contract
 class ComputeLikelihood:
     # concrete inputs (conventions of rt/oracles_contracts.compute_likelihood): the number of events of the catalog differs from
     # n_obs (synthetic catalogs are normalised by their own size), empty catalog, n_obs = 0, zero expected count
-    directed = staticmethod(lambda: [('compute_likelihood', dict(gridded_data=g, apprx_rate_density=r, expected_cond_count=e, n_obs=n))
+    directed = staticmethod(lambda: _directed_undersampled() + [('compute_likelihood', dict(gridded_data=g, apprx_rate_density=r, expected_cond_count=e, n_obs=n))
                                      for g, r, e, n in (([0, 2, 1], [0.5, 0.25, 0.25], 3.0, 5.0), ([1, 0, 0, 3], [0.1, 0.0, 2.0, 0.4], 2.5, 1.0),
                                                         ([0, 0, 0], [0.5, 0.25, 0.25], 3.0, 2.0), ([2, 1], [0.3, 0.7], 1.0, 0.0),
                                                         ([2, 1], [0.3, 0.7], 0.0, 3.0))])
